@@ -183,10 +183,10 @@ def run(ctx):
                     ctx.violation("prefix-changed:" + sigbase, "records complete before the crash changed: %s vs %s" % (fkeys[:kept], keys[:kept]), case); continue
                 evals = [["I"] + json.loads(l) for l in open(side).read().splitlines()]
                 run1 = dict(cfg=dict(p=1, mt=0, ip=True), recs=keys[:nc], evals=[k for k in keys[:nc + (1 if torn else 0)] if k[0] == "I"],
-                            end="crash", torn=(0 if not torn else (K if torn == 2 else 1)), tornk=(keys[nc] if torn else ["none"]))
+                            end="crash", torn=(0 if not torn else (K if torn == 2 else 1)), tornk=(keys[nc] if torn else ["none"]), nrep=-1)
                 # a failing triple is evaluated (side channel) but leaves no record: run 1 evaluated those that precede its last record
                 run1["evals"] = evals_before(evalseq, keys, nc + (1 if torn else 0))
-                run2 = dict(cfg=dict(p=cfg["p"], mt=cfg["mt"], ip=cfg["ip"]), recs=fkeys[kept:], evals=evals, end="done", torn=0, tornk=["none"])
+                run2 = dict(cfg=dict(p=cfg["p"], mt=cfg["mt"], ip=cfg["ip"]), recs=fkeys[kept:], evals=evals, end="done", torn=0, tornk=["none"], nrep=-1)
                 traces.append(dict(shape=dict(tr=[list(t) for t in shape["tr"]], ch=shape["ch"], fail=[list(t) for t in shape["fail"]]), runs=[run1, run2]))
                 meta.append(case)
                 # ---- a second interruption: the file the resumed run wrote (old records + new ones, in the resumed configuration's
